@@ -11,10 +11,20 @@ Sub-checks (every point of each finite lattice is evaluated, nothing is sampled)
             measured on a DTFT of get_impulse_response in a wide buffer (time -> frequency,
             an independent route) and cross-checked on get_frequency_response.
   reject    invalid (low_hz, high_hz) ranges must raise ValueError
+  history   call histories on ONE bank object: every sequence of 2 (quick) / 3 (thorough) calls over
+            {get_frequency_response(i, w, half), get_impulse_response(i, w)} x {first, last filter}
+            x widths whose (width, half) pairs share bin counts; every returned array is held
+            until the end of the sequence and then compared with what it was on return
+            (bit-identical), with what a fresh bank object returns for that call, and for shared
+            memory with the other held arrays
+
+The bank lattice has two parts: the design lattice (even integer rates) and a boundary part with
+odd and fractional sampling rates, whose top edge sits at / between / on floor(rate/2) and rate/2.
 
 A *valid* configuration whose constructor raises is counted (obs "unconstructible:<text>",
 trivial point), not reported: the property speaks about the filters of a bank that exists.
 """
+import copy
 import functools
 import math
 import warnings
@@ -32,15 +42,25 @@ ASSUMPTIONS = [
     "(layout + documented bandwidth rule + documented normalisation, threshold "
     "EFFECTIVE_SUPPORT_THRESHOLD), not on the bank's own supports_hz, which a defective "
     "constant can inflate; on a correct bank the two coincide (counted in obs)",
-    "sampling rates {1000, 8000, 16000} (even integers): the integer-Nyquist default of three "
-    "of the four classes is not distinguished from rate/2",
+    "sampling rates {1000, 8000, 16000} (even integers) and {1001, 11025, 22050.5} (odd, fractional). At "
+    "the odd / fractional rates Fbank, Gabor and gammatone banks are enumerated with an explicit high_hz "
+    "<= floor(rate/2) only: their default top edge and whether they must accept a high_hz in "
+    "(floor(rate/2), rate/2] is not stated by the property (left open, counted in axes.left_open); the "
+    "triangular bank, whose documented default is the Nyquist frequency and which accepts every high_hz "
+    "up to it, is enumerated with high_hz in {None, floor(rate/2), between, rate/2}",
+    "history: a response is a function of (bank configuration, filter, width, half) - the property "
+    "quantifies over exactly these - so a result that depends on earlier calls on the same object, or "
+    "that changes after it was returned, violates it. The differential oracle is a fresh object of the "
+    "same class in the same process (agreement to 1e-12, the tolerance of `triangle`; 'unchanged since "
+    "it was returned' is bit-exact); state shared between objects (class / module level) is not "
+    "explored by it",
     "no signal data is involved: pass/fail cannot depend on VERIF_SEED",
 ]
 
 CLASSNAME = {"tri": "TriangularOverlappingFilterBank", "fbank": "Fbank",
              "gabor": "GaborFilterBank", "gammatone": "ComplexGammatoneFilterBank"}
 SCALES = ("mel", "bark", "linear", "octave")
-TRI_WIDTHS = (8, 31, 64, 257, 512)
+TRI_WIDTHS = (8, 31, 64, 257, 512, 1001)
 IR_CAP = {"quick": 6000, "thorough": 40000}
 
 
@@ -79,10 +99,53 @@ def flag_sets(kind, orders=(1, 2, 4, 6)):
             for e in (False, True) for l in (False, True) for o in orders for m in (False, True)]
 
 
-def bank_lattice(kinds, nfs, rates, orders=(1, 2, 4, 6), scales=SCALES):
+def floor_nyquist(rate):
+    return float(math.floor(rate / 2.0))
+
+
+def odd_ranges(kind, rate):
+    """(low, high) pairs of the boundary lattice of C05 for one class at one rate.
+    Triangular: the default, floor(rate/2), a value between floor(rate/2) and rate/2, rate/2 (all
+    valid: the class documents default = Nyquist and accepts up to it).  The other three classes
+    put their default at floor(rate/2) and reject an explicit high_hz above it; the property does
+    not decide either, so only explicit values <= floor(rate/2) are enumerated for them."""
+    nyq = rate / 2.0
+    flo = floor_nyquist(rate)
+    highs = [flo, 0.8 * nyq]
+    if kind == "tri":
+        highs = [None, flo, nyq, 0.8 * nyq]
+        if flo < nyq:
+            highs.insert(2, (flo + nyq) / 2.0)
+    return [(low, high) for low in (0.0, 20.0) for high in highs]
+
+
+def odd_left_open(banks):
+    """number of configurations of the boundary lattice that the property leaves open: each enumerated
+    Fbank / Gabor / gammatone bank with high_hz = floor(rate/2) has three siblings (high_hz None, between
+    floor(rate/2) and rate/2, rate/2) that are not enumerated"""
+    return 3 * sum(1 for b in banks if b["name"] != "tri" and
+                   b.get("high_hz") == floor_nyquist(b["sampling_rate"]) < b["sampling_rate"] / 2.0)
+
+
+def edge_ranges(kind, rate):
+    """C06 / C07 speak about every bank that can be constructed: the top edge at every boundary a
+    constructor distinguishes - default, floor(rate/2), rate/2, rate/2 + 0.5, rate/2 + 1 (the
+    triangular bank tolerates up to 1 Hz above the Nyquist frequency); a class that rejects a
+    pair is counted as unconstructible"""
+    nyq = rate / 2.0
+    highs = [None]
+    for h in (floor_nyquist(rate), nyq, nyq + 0.5, nyq + 1.0):
+        if h not in highs:
+            highs.append(h)
+    return [(low, high) for low in (0.0, 20.0) for high in highs]
+
+
+def bank_lattice(kinds, nfs, rates, orders=(1, 2, 4, 6), scales=SCALES, ranges_fn=None):
     """classes x scales x num_filts x rate x (low, high) x every flag combination.
     A scale is a name or a dict with parameters.  The octave scale is undefined at 0 Hz, so it
     is paired with low_hz > 0 only."""
+    if ranges_fn is None:
+        ranges_fn = lambda kind, rate: ranges(rate)  # noqa: E731
     out = []
     for kind in kinds:
         for sc in (("mel",) if kind == "fbank" else scales):
@@ -91,7 +154,7 @@ def bank_lattice(kinds, nfs, rates, orders=(1, 2, 4, 6), scales=SCALES):
             scname = sc if isinstance(sc, str) else sc["name"]
             for nf in nfs:
                 for rate in rates:
-                    for low, high in ranges(rate):
+                    for low, high in ranges_fn(kind, rate):
                         if scname == "octave" and low <= 0:
                             continue
                         for fl in flag_sets(kind, orders):
@@ -107,6 +170,8 @@ def bank_lattice(kinds, nfs, rates, orders=(1, 2, 4, 6), scales=SCALES):
 
 ALL_KINDS = ("tri", "fbank", "gabor", "gammatone")
 RATES = (1000, 8000, 16000)
+ODD_RATES = (1001, 11025, 22050.5)
+EDGE_RATES = (1000, 1001, 2000.5, 8000)
 EXTRA_SCALES = ({"name": "linear", "low_hz": 10.0, "slope_hz": 0.5}, {"name": "octave", "low_hz": 7.5})
 
 
@@ -118,6 +183,17 @@ def tier_lattice(tier, kinds=ALL_KINDS, orders=(1, 2, 4, 6)):
         out += bank_lattice(kinds, (23, 40), (8000, 16000), orders)
         out += bank_lattice([k for k in kinds if k != "fbank"], (3, 11), RATES, orders, scales=EXTRA_SCALES)
     return out
+
+
+def odd_lattice(tier, kinds=ALL_KINDS, orders=(1, 2, 4, 6)):
+    """the boundary part of the C05 lattice: odd and fractional sampling rates"""
+    nfs = (1, 2, 3, 5, 11) if tier == "thorough" else (1, 3, 5)
+    return bank_lattice(kinds, nfs, ODD_RATES, orders, ranges_fn=odd_ranges)
+
+
+def edge_lattice(kinds, orders=(2, 4), nfs=(1, 3)):
+    """boundary banks for C06 / C07: even and odd rates x the top edge at every constructor boundary"""
+    return bank_lattice(kinds, nfs, EDGE_RATES, orders, ranges_fn=edge_ranges)
 
 
 def bank_tags(b):
@@ -136,6 +212,50 @@ def bank_tags(b):
 def build(b):
     """-> ("ok", bank) | ("exc", type, text); the configuration is valid by construction"""
     return computers.call(cfg.make_bank, b)
+
+
+_ATOMS = (float, int, bool, str, bytes, complex, type(None), np.generic)
+
+
+def _immutable(v):
+    return isinstance(v, _ATOMS) or (isinstance(v, (tuple, frozenset)) and all(_immutable(x) for x in v))
+
+
+class Pristine:
+    """a constructed bank that is never touched (no method called, no property read), only copied.
+
+    Constructing a gammatone bank costs more than the calls of a case, so enumeration hands every case
+    a copy: attributes that are immutable through and through (numbers, strings, tuples of them) are
+    shared, everything else (a dict, an array, any other object) is deep-copied.  Replays construct.
+    Falls back to constructing when the object cannot be copied this way."""
+
+    def __init__(self, b):
+        r = build(b)
+        if r[0] != "ok":
+            raise core.HarnessError("bank %r could be constructed once but not again: %r" % (b, r))
+        self.b = b
+        self.obj = r[1]
+        try:
+            attrs = vars(self.obj)
+            self.shared = {k: v for k, v in attrs.items() if _immutable(v)}
+            self.mutable = [k for k in attrs if k not in self.shared]
+        except Exception:
+            self.shared = None
+
+    def fresh(self):
+        if self.shared is not None:
+            try:
+                new = object.__new__(type(self.obj))
+                new.__dict__.update(self.shared)
+                for k in self.mutable:
+                    new.__dict__[k] = copy.deepcopy(self.obj.__dict__[k])
+                return new
+            except Exception:
+                pass
+        r = build(self.b)
+        if r[0] != "ok":
+            raise core.HarnessError("bank %r could be constructed once but not again: %r" % (self.b, r))
+        return r[1]
 
 
 def ref_layout(b):
@@ -444,7 +564,7 @@ def reject_points(tier):
     for kind in ("tri", "fbank", "gabor", "gammatone"):
         for sc in (("mel",) if kind == "fbank" else SCALES):
             for nf in (1, 5):
-                for rate in (1000, 8000, 16000):
+                for rate in reject_rates(tier):
                     nyq = rate / 2.0
                     combos = []
                     for low in (-1.0, -1e-9):
@@ -485,6 +605,270 @@ def _reject(p):
     return core.result([], obs=(p["why"], r[1]), sample=dict(config=p, raised=r[2][:60]))
 
 
+# ---------------------------------------------------------------- call histories on one bank object
+#
+# Shared by C05, C06 and C07 (each with the calls its property observes).  A call is a JSON-able
+# list: ["freq", filt, width, half] | ["trunc", filt, width] | ["imp", filt, width].
+
+HISTORY_WIDTHS = (9, 16, 17)  # full at 9, half at 16 and half at 17 all have 9 bins
+HISTORY_TOL = 1e-12
+METHOD = {"freq": "get_frequency_response", "trunc": "get_truncated_response",
+          "imp": "get_impulse_response"}
+
+
+def call_name(c):
+    return METHOD[c[0]] + ("(half)" if c[0] == "freq" and c[3] else "")
+
+
+def call_text(c):
+    if c[0] == "freq":
+        return "get_frequency_response(%d, %d%s)" % (c[1], c[2], ", half=True" if c[3] else "")
+    return "%s(%d, %d)" % (METHOD[c[0]], c[1], c[2])
+
+
+def do_call(bank, c):
+    if c[0] == "freq":
+        return computers.call(bank.get_frequency_response, int(c[1]), int(c[2]), bool(c[3]))
+    if c[0] == "trunc":
+        return computers.call(bank.get_truncated_response, int(c[1]), int(c[2]))
+    if c[0] == "imp":
+        return computers.call(bank.get_impulse_response, int(c[1]), int(c[2]))
+    raise core.HarnessError("unknown call %r" % (c,))
+
+
+def _parts(r):
+    """result of computers.call -> flat list of parts (arrays stay the objects that were returned)"""
+    if r[0] != "ok":
+        return [("exc", r[1])]
+    v = r[1]
+    return list(v) if isinstance(v, (tuple, list)) else [v]
+
+
+def _snapshot(parts):
+    return [np.array(x, copy=True) if isinstance(x, np.ndarray) else x for x in parts]
+
+
+def _arrays(parts):
+    return [x for x in parts if isinstance(x, np.ndarray)]
+
+
+def _bits_equal(a, b):
+    if len(a) != len(b):
+        return False
+    for x, y in zip(a, b):
+        if isinstance(x, np.ndarray) != isinstance(y, np.ndarray):
+            return False
+        if isinstance(x, np.ndarray):
+            if x.dtype != y.dtype or x.shape != y.shape or x.tobytes() != y.tobytes():
+                return False
+        elif x != y:
+            return False
+    return True
+
+
+def _close(a, b, tol=HISTORY_TOL):
+    """-> None if the two results agree (same structure, dtype, shape; values to tol), else text"""
+    if len(a) != len(b):
+        return "%d parts vs %d" % (len(a), len(b))
+    for x, y in zip(a, b):
+        if isinstance(x, np.ndarray) != isinstance(y, np.ndarray):
+            return "%s vs %s" % (type(x).__name__, type(y).__name__)
+        if isinstance(x, np.ndarray):
+            if x.dtype != y.dtype or x.shape != y.shape:
+                return "%s%r vs %s%r" % (x.dtype, x.shape, y.dtype, y.shape)
+            if x.size == 0:
+                continue
+            nx, ny = np.isnan(x), np.isnan(y)
+            if np.any(nx != ny):
+                return "NaN at bin %d in one of them only" % int(np.argmax(nx != ny))
+            d = np.where(nx, 0.0, np.abs(np.where(nx, 0, x) - np.where(ny, 0, y)))
+            lim = tol * max(1.0, float(np.max(np.where(ny, 0.0, np.abs(y)))))
+            if not np.all(d <= lim):
+                k = int(np.argmax(d))
+                return "[%d] = %r vs %r (max |diff| %.3g)" % (k, complex(x[k]), complex(y[k]), float(d[k]))
+        elif x != y:
+            return "%r vs %r" % (x, y)
+    return None
+
+
+def _props(bank):
+    return computers.canon_value((bank.num_filts, bank.is_real, bank.is_analytic, bank.is_zero_phase,
+                                  tuple(bank.centers_hz), tuple(map(tuple, bank.supports_hz)),
+                                  tuple(map(tuple, bank.supports))))
+
+
+def history_case(b, seq, fresh=None):
+    """Run `seq` on ONE new bank object holding every result; -> list of (tags, detail).
+
+    fresh: optional dict repr(call) -> snapshot of what a fresh object returned for that call
+    (computed here, one fresh object per call, when missing)."""
+    r = build(b)
+    if r[0] != "ok":
+        return None
+    bank = r[1]
+    cls = CLASSNAME[b["name"]]
+
+    def want(c):
+        k = repr(list(c))
+        if fresh is not None and k in fresh:
+            return fresh[k]
+        rb = build(b)
+        if rb[0] != "ok":
+            raise core.HarnessError("bank %r constructed once and not twice: %r" % (b, rb))
+        v = _snapshot(_parts(do_call(rb[1], c)))
+        if fresh is not None:
+            fresh[k] = v
+        return v
+
+    out = []
+    held, snaps = [], []
+    for c in seq:
+        parts = _parts(do_call(bank, c))
+        held.append(parts)
+        snaps.append(_snapshot(parts))
+    txt = " -> ".join(call_text(c) for c in seq)
+    # 1. on return, every result is what a fresh object returns for the same call
+    for j, c in enumerate(seq):
+        why = _close(snaps[j], want(c))
+        if why is not None:
+            out.append((dict(bank=cls, what="history_stale", call=call_name(c)),
+                        "one object, calls %s: the result of call #%d differs from the result of the same "
+                        "call on a fresh object: %s" % (txt, j + 1, why)))
+    # 2. at the end of the sequence, every held result is still what it was on return
+    for j, c in enumerate(seq):
+        if not _bits_equal(held[j], snaps[j]):
+            why = _close(held[j], snaps[j], 0.0)
+            out.append((dict(bank=cls, what="history_mutated", call=call_name(c)),
+                        "one object, calls %s: the array returned by call #%d changed after it was returned "
+                        "(held vs copy taken on return: %s)" % (txt, j + 1, why)))
+    # 3. no two returned arrays share memory
+    arrs = [(j, a) for j, parts in enumerate(held) for a in _arrays(parts)]
+    for x in range(len(arrs)):
+        for y in range(x + 1, len(arrs)):
+            if arrs[x][1].size and arrs[y][1].size and np.shares_memory(arrs[x][1], arrs[y][1]):
+                out.append((dict(bank=cls, what="history_alias", call=call_name(seq[arrs[y][0]])),
+                            "one object, calls %s: the arrays returned by calls #%d and #%d share memory" % (
+                                txt, arrs[x][0] + 1, arrs[y][0] + 1)))
+    # 4. the caller owns what it was given: after writing NaN into every returned array, the same
+    #    calls on the same object still return what a fresh object returns
+    for _, a in arrs:
+        if a.size and a.flags.writeable and a.dtype.kind in "fc":
+            a[...] = np.nan
+    for j, c in enumerate(seq):
+        again = _snapshot(_parts(do_call(bank, c)))
+        w = want(c)
+        why = _close(again, w)
+        if why is None:
+            continue
+        poisoned = any(np.isnan(a).any() for a in _arrays(again) if a.dtype.kind in "fc") and \
+            not any(np.isnan(a).any() for a in _arrays(w) if a.dtype.kind in "fc")
+        out.append((dict(bank=cls, what="history_scribble" if poisoned else "history_stale", call=call_name(c)),
+                    "one object, calls %s, then %s: %s differs from a fresh object: %s" % (
+                        txt, "NaN written by the caller into every array it was given" if poisoned
+                        else "the same calls once more", call_name(c), why)))
+    # 5. the read-only description of the bank is what it is on a fresh object
+    rb = build(b)
+    if rb[0] == "ok" and _props(bank) != _props(rb[1]):
+        out.append((dict(bank=cls, what="history_props"),
+                    "one object, calls %s: centers_hz / supports_hz / supports / flags differ from a fresh "
+                    "object afterwards" % txt))
+    return out
+
+
+def history_alphabet(b, methods, widths_of_filter):
+    """calls = methods x {first, last filter} x widths (x half for "freq")"""
+    filts = sorted({0, b["num_filts"] - 1})
+    out = []
+    for m in methods:
+        for i in filts:
+            for w in widths_of_filter(i):
+                if m == "freq":
+                    out.append(["freq", i, w, False])
+                elif m == "freq_half":
+                    out.append(["freq", i, w, True])
+                else:
+                    out.append([m, i, w])
+    return out
+
+
+def sequences(alphabet, depth):
+    if depth == 0:
+        return [[]]
+    return [[c] + rest for c in alphabet for rest in sequences(alphabet, depth - 1)]
+
+
+@quiet
+def history_point(pt, alphabet_fn):
+    """pt = dict(bank=, depth=, first=index into the alphabet or None): every sequence of `depth`
+    calls (starting with `first`) on one fresh object each"""
+    b = pt["bank"]
+    r = build(b)
+    if r[0] != "ok":
+        return unconstructible(r)
+    alphabet = alphabet_fn(b, r[1])
+    if not alphabet:
+        return core.result([], nontrivial=False, obs="empty_alphabet", evals=0, nontrivial_count=0)
+    fresh = {}
+    viol, seen = [], set()
+    evals = nontriv = 0
+    shared_bins = 0
+    heads = alphabet if pt.get("first") is None else [alphabet[pt["first"]]] if pt["first"] < len(alphabet) else []
+    for head in heads:
+        for rest in sequences(alphabet, pt["depth"] - 1):
+            seq = [head] + rest
+            evals += 1
+            got = history_case(b, seq, fresh)
+            if got is None:
+                raise core.HarnessError("bank %r could be constructed once but not again" % (b,))
+            # non-trivial: two calls of the sequence return arrays of equal length for different arguments
+            lens = {}
+            for c in seq:
+                for a in _arrays(fresh[repr(list(c))]):
+                    lens.setdefault(a.shape, set()).add(repr(c))
+            if any(len(v) > 1 for v in lens.values()):
+                nontriv += 1
+            for tags, detail in got:
+                key = tuple(sorted(tags.items()))
+                if key not in seen:
+                    viol.append(core.violation(tags, detail, dict(bank=b, seq=seq)))
+                seen.add(key)
+    return core.result(viol, evals=evals, nontrivial_count=nontriv,
+                       obs=(b["name"], len(alphabet), sorted(map(str, seen))),
+                       sample=dict(bank=b, alphabet=alphabet[:6], sequences=evals))
+
+
+@quiet
+def history_replay(case):
+    got = history_case(case["bank"], case["seq"])
+    if got is None:
+        return core.result([], nontrivial=False, obs="unconstructible")
+    return core.result([core.violation(tags, detail, case) for tags, detail in got])
+
+
+def history_banks(tier, kinds=ALL_KINDS, orders=(2, 4), l2s=(False, True), rates=(1000, 16000)):
+    """few banks, every flag combination: histories multiply the cost of a bank by |alphabet|^depth"""
+    nfs = (1, 3, 11) if tier == "thorough" else (1, 3)
+    rates = tuple(rates) + ((11025,) if tier == "thorough" else ())
+    out = []
+    for b in bank_lattice(kinds, nfs, rates, orders, scales=("mel",),
+                          ranges_fn=lambda kind, rate: [(0.0, None)]):
+        if "scale_l2_norm" in b and b["scale_l2_norm"] not in l2s:
+            continue
+        out.append(b)
+    return out
+
+
+def history_points(tier, banks, alphabet_size):
+    depth = 3 if tier == "thorough" else 2
+    if depth == 2:
+        return [dict(bank=b, depth=depth, first=None) for b in banks]
+    return [dict(bank=b, depth=depth, first=k) for b in banks for k in range(alphabet_size)]
+
+
+def _c05_alphabet(b, bank):
+    return history_alphabet(b, ("freq", "freq_half", "imp"), lambda i: HISTORY_WIDTHS)
+
+
 # ---------------------------------------------------------------- registration
 
 
@@ -494,18 +878,36 @@ def _replay_bank(fn):
     return replay
 
 
+def reject_rates(tier):
+    return RATES + ODD_RATES
+
+
 def subchecks(tier, seed):
-    banks = tier_lattice(tier)
-    resp_banks = list(banks)
+    design = tier_lattice(tier)
+    odd = odd_lattice(tier)
+    banks = design + odd
+    # gain / crossings / ERB are measured per filter (expensive): the boundary part takes part with its
+    # compactly supported classes, whose route is cheap; its layout is checked for all four classes
+    resp_banks = design + [b for b in odd if b["name"] in ("tri", "fbank")]
     if tier == "quick":
         # the narrow filters of large banks are what lies inside the "< rate/2" domain for low orders
         # (the thorough lattice contains them anyway)
         resp_banks += bank_lattice(("gabor", "gammatone"), (40,), (16000,), scales=("mel",))
     tri_banks = [b for b in banks if b["name"] in ("tri", "fbank")]
     cap = IR_CAP[tier]
+    left_open = odd_left_open(odd)
     axes = dict(bank=sorted(CLASSNAME), scale=list(SCALES) + (list(EXTRA_SCALES) if tier == "thorough" else []), num_filts=sorted(set(b["num_filts"] for b in banks)),
-                rate=[1000, 8000, 16000], low_high="(0,None) (20,None) (100,0.8 Nyq) (0,Nyq); octave: low>0",
+                rate=list(RATES) + list(ODD_RATES),
+                low_high="rates %r: (0,None) (20,None) (100,0.8 Nyq) (0,Nyq); octave: low>0" % (RATES,),
+                low_high_boundary="rates %r, num_filts %r: low {0, 20} x high {floor(rate/2), 0.8 Nyq} and, for the "
+                                  "triangular bank, {None, between floor(rate/2) and rate/2, rate/2}" % (
+                                      ODD_RATES, sorted(set(b["num_filts"] for b in odd))),
+                left_open="%d configurations (Fbank / Gabor / gammatone at odd or fractional rates with high_hz "
+                          "None or in (floor(rate/2), rate/2]) are not enumerated: the property does not say "
+                          "what their top edge is or that they are accepted" % left_open,
                 flags="analytic | erb x scale_l2_norm (x order {1,2,4,6} x max_centered)")
+    hist_banks = history_banks(tier)
+    hist_alpha = 3 * 2 * len(HISTORY_WIDTHS)
     return [
         core.SubCheck(
             "constructible", banks, _constructible,
@@ -532,11 +934,27 @@ def subchecks(tier, seed):
             "one grid step, |H|^2 in [0.5 - 4 eps, 10^-0.3 + 4 eps] at both band edges (erb=False), ERB = "
             "edge spacing +- 1%% (erb=True); DTFT of a wide impulse response and get_frequency_response. "
             "non-trivial = documented support spans < rate/2 (others are outside the property's domain)",
-            axes=dict(axes, extra_num_filts="quick: + 40 filters (mel, 16 kHz, Gabor / gammatone)", ir_cap=cap),
+            axes=dict(axes, extra_num_filts="quick: + 40 filters (mel, 16 kHz, Gabor / gammatone)", ir_cap=cap,
+                      boundary_part="triangular / Fbank only"),
             replay=_replay_bank(lambda b: _response(b, cap))),
         core.SubCheck(
             "reject", reject_points(tier), _reject,
-            "4 classes x scales x num_filts {1,5} x 3 rates x {low in {-1,-1e-9} x 5 highs; positive high in "
+            "4 classes x scales x num_filts {1,5} x rates %r x {low in {-1,-1e-9} x 5 highs; positive high in "
             "{low, low-1, low/2}; high in Nyquist + {1.001, 1.5, 100}}: constructor must raise ValueError; "
-            "(Nyquist, Nyquist+1] is left open by the property and not enumerated"),
+            "(Nyquist, Nyquist+1] is left open by the property and not enumerated" % (reject_rates(tier),)),
+        core.SubCheck(
+            "history", history_points(tier, hist_banks, hist_alpha), lambda pt: history_point(pt, _c05_alphabet),
+            "call histories on ONE bank object: 4 classes x every flag combination (gammatone orders 2, 4) x "
+            "num_filts x rates (mel, low 0, default high) x every sequence of %d calls over "
+            "{get_frequency_response(half False / True), get_impulse_response} x {first, last filter} x widths %r "
+            "(full at 9, half at 16 and 17 all have 9 bins). Every result is held to the end of the sequence; "
+            "then (1) its copy taken on return agrees (1e-12) with a fresh object's result for that call, (2) the "
+            "held array is bit-identical to that copy, (3) no two held arrays share memory, (4) after the caller "
+            "overwrites the held arrays with NaN the same calls still agree with a fresh object, (5) centres / "
+            "supports are unchanged. evaluations = sequences; non-trivial = two different calls of the sequence "
+            "return arrays of equal shape" % (3 if tier == "thorough" else 2, HISTORY_WIDTHS),
+            axes=dict(bank=sorted(CLASSNAME), num_filts=sorted(set(b["num_filts"] for b in hist_banks)),
+                      rate=sorted(set(b["sampling_rate"] for b in hist_banks)), width=list(HISTORY_WIDTHS),
+                      depth=3 if tier == "thorough" else 2, alphabet=hist_alpha),
+            replay=history_replay, chunk=1, kind="histories"),
     ]
